@@ -517,7 +517,45 @@ def gen_random(rng, loop, mode, zmq_fractional=False):
                 arr.append([rng.choices(delays, weights)[0] + rng.choice([0, 0, 1, 400]), k, rng.choice([1, 1, 2])])
         prog["arrivals"] = sorted(arr)
         prog["order"] = rng.choice(["reg", "rev"])
-    prog["restart"] = loop in RESTARTABLE and rng.random() < 0.2
+    prog["restart"] = False
+    if loop in RESTARTABLE and rng.random() < 0.3:
+        more = []
+        for _seg in range(rng.choice([1, 1, 1, 2])):
+            spre = []
+            top = 0
+            for _ in range(rng.randint(1, 3)):
+                a = new("b")
+                d = delay()
+                top = max(top, d)
+                spre.append(["alarm", a, d])
+                if rng.random() < 0.35:
+                    ops = []
+                    r = rng.random()
+                    if r < 0.3 and idles:
+                        ops.append(["rm_idle", rng.choice(idles)])
+                    elif r < 0.5 and nfd:
+                        ops.append(["write", rng.randrange(nfd), 1])
+                    elif r < 0.7:
+                        ops.append(["busy", 1500])
+                    elif r < 0.85:
+                        ops.append(["raise", rng.choice(["exit", "boom"])])
+                    else:
+                        ops.append(["rm_alarm", a])
+                    cbs[a] = [ops]
+            if nfd and rng.random() < 0.5:
+                k = rng.randrange(nfd)
+                w = new("v")
+                spre.append(["watch", w, k])  # skipped by the interpreter when that descriptor is still watched
+                spre.append(["write", k, rng.choice([1, 2])])
+            if rng.random() < 0.4:
+                i = new("j")
+                idles.append(i)
+                spre.append(["idle", i])
+            if rng.random() < 0.2 and idles:
+                spre.append(["rm_idle", rng.choice(idles)])
+            rng.shuffle(spre)
+            more.append({"pre": spre, "exit_us": top + 3000 + TAIL_US})
+        prog["more"] = more
     return finish(prog)
 
 
@@ -579,6 +617,38 @@ def directed(loop, mode):
         P(0, [["alarm", "a0", d]], {})
         P(1, [["alarm", "a0", d], ["watch", "w0", 0]], {})
     P(1, [["watch", "w0", 0], ["write", 0, 1]], {"w0": [[], [], [["rm_watch", "w0"]]]}, nodrain=["w0"])
+
+    # --- two and three run() calls on the same loop object.  The first run is ended by the final alarm, by
+    # ExitMainLoop or by an exception raised from an alarm / watch / idle callback; then new alarms, watches and
+    # idle callbacks are registered and run() is called again.  Idle callback i0 is registered before the FIRST run.
+    if loop in RESTARTABLE:
+        enders = {
+            "final": {},
+            "alarm-exit": {"a0": [[["raise", "exit"]]]},
+            "alarm-boom": {"a0": [[["raise", "boom"]]]},
+            "watch-exit": {"w0": [[["raise", "exit"]]]},
+            "watch-boom": {"w0": [[["raise", "boom"]]]},
+            "idle-exit": {"i0": [[["raise", "exit"]]]},
+            "idle-boom": {"i0": [[["raise", "boom"]]]},
+            "idle-boom-late": {"i0": [[], [["raise", "boom"]]]},
+        }
+        seconds = [
+            [["alarm", "b0", 0], ["alarm", "b1", 2000]],
+            [["alarm", "b0", 1000], ["watch", "v0", 1], ["write", 1, 2]],
+            [["idle", "j0"], ["alarm", "b0", 0], ["alarm", "b1", 20000], ["write", 0, 1]],
+            [["rm_idle", "i0"], ["idle", "j0"], ["alarm", "b0", 2000]],
+        ]
+        for ender in enders.values():
+            for k, second in enumerate(seconds):
+                pre = [["idle", "i0"], ["watch", "w0", 0], ["write", 0, 1], ["alarm", "a0", 1000], ["alarm", "a1", 5000]]
+                more = [{"pre": second, "exit_us": 20000 + TAIL_US}]
+                if k % 2 == 0:
+                    more.append({"pre": [["alarm", "c0", 0], ["alarm", "c1", 1000]], "exit_us": 1000 + TAIL_US})
+                cbs = dict(ender)
+                if k == 1:
+                    cbs["b0"] = [[["raise", "boom"]]]  # the second run ends by an exception, too
+                P(2, pre, cbs)
+                out[-1]["more"] = more
     return out
 
 
@@ -614,7 +684,7 @@ def enum_actions(n_events):
 IDLE_VARIANTS = ("plain", "rm_self", "rm_sibling", "add", "boom", "exit", "none")
 
 
-def build_enum(loop, n_a, n_f, ranks, action, order, unit_us, idle_variant="plain"):
+def build_enum(loop, n_a, n_f, ranks, action, order, unit_us, idle_variant="plain", second=None):
     """n_a alarms and n_f descriptor arrivals at times rank*unit; one actor"""
     n = n_a + n_f
     ids = [f"a{j}" for j in range(n_a)] + [f"w{j}" for j in range(n_f)]
@@ -675,6 +745,11 @@ def build_enum(loop, n_a, n_f, ranks, action, order, unit_us, idle_variant="plai
         "restart": False,
     }
     prog["exit_us"] = (max(ranks) + 4) * unit_us + TAIL_US
+    if second == "alarms":
+        prog["more"] = [{"pre": [["alarm", "b0", 0], ["alarm", "b1", 2 * unit_us]], "exit_us": 2 * unit_us + TAIL_US}]
+    elif second == "watch":
+        prog["nfd"] = n_f + 1
+        prog["more"] = [{"pre": [["alarm", "b0", unit_us], ["watch", "v0", n_f], ["write", n_f, 2]], "exit_us": unit_us + TAIL_US}]
     return prog
 
 
@@ -692,6 +767,15 @@ def shrink_candidates(prog):
         p = clone()
         p["restart"] = False
         yield p
+    for k in range(len(prog.get("more", ())) - 1, -1, -1):
+        if k == len(prog["more"]) - 1:
+            p = clone()
+            del p["more"][k]
+            yield p
+        for i in range(len(prog["more"][k]["pre"])):
+            p = clone()
+            del p["more"][k]["pre"][i]
+            yield p
     for cbid in list(prog.get("cbs", {})):
         p = clone()
         del p["cbs"][cbid]
